@@ -93,6 +93,39 @@ def none_case_args(name, args, obname):
     return args
 
 
+SKELETONS = os.path.join(core.VERIF, "contracts", "kernel_skeletons.json")
+
+
+def skeleton(fn):
+    """The statement skeleton of a kernel: statement kinds, their nesting and order (assignment targets by kind) - every
+    expression is dropped.  The sidecar's loop invariants were written for ONE skeleton (recorded in
+    contracts/kernel_skeletons.json).  A change of an operator, a constant, an index expression or a guard keeps it;
+    a restructuring (moved / added / removed statements, other loop forms) does not."""
+    import ast as _ast
+    import hashlib
+
+    def sk(node):
+        kids = []
+        for name, val in _ast.iter_fields(node):
+            if isinstance(val, list) and val and isinstance(val[0], _ast.stmt):
+                kids.append((name, [sk(x) for x in val]))
+        extra = ""
+        if isinstance(node, _ast.Assign):
+            extra = ",".join(type(t).__name__ for t in node.targets)
+        elif isinstance(node, _ast.AugAssign):
+            extra = type(node.target).__name__
+        return (type(node).__name__, extra, kids)
+
+    return hashlib.sha256(repr(sk(fn)).encode()).hexdigest()[:16]
+
+
+def load_skeletons():
+    if os.path.exists(SKELETONS):
+        with open(SKELETONS) as f:
+            return json.load(f)
+    return {}
+
+
 def load_baseline():
     if os.path.exists(BASELINE):
         with open(BASELINE) as f:
@@ -135,6 +168,10 @@ def run(ctx, which):
 
     baseline = load_baseline()
     rebase = os.environ.get("CV_REBASELINE") == "1"
+    skeletons = load_skeletons()
+    skel_now = {f: skeleton(node) for f, node in n.funcs.items()}
+    restructured = {f for f in skel_now if f in skeletons and skeletons[f] != skel_now[f]}
+    not_binding = []  # (table, function, open obligations): invariants fail on a restructured body and nothing replays
     new_baseline = {}
     all_results = []
     per_function = {}
@@ -205,6 +242,8 @@ def run(ctx, which):
                     which, failed[0].name, "obligation not discharged (%s); the bounded run of the real code fails: set_union_merge_many(%s) -> %s, expected %s; "
                     "open obligations: %s" % (failed[0].verdict, h["args"], h["outcome"], h["expected"], ", ".join(x.name.split("/")[-1] for x in failed[:6])),
                     input={"function": MANY, "args": h["args"], "build": variant}, cls={"function": MANY, "class": h["class"]}))
+            elif fname in restructured:
+                not_binding.append((tname, fname, [x.name for x in failed[:6]]))
             else:
                 changed = [r for r in failed if baseline.get("%s|%s" % (tname, r.name)) != r.hash]
                 r = (changed or failed)[0]
@@ -249,6 +288,15 @@ def run(ctx, which):
             ))
             continue
         # (c) nothing replays
+        if fname in restructured:
+            # The statement skeleton is not the one the sidecar's invariants were written for: an invariant that is no longer
+            # inductive says nothing about the property (a failed proof is "undecided", not "violated").  The contract is not
+            # re-established deductively for this body; the bounded run above (exhaustive small scope + dense + block
+            # families, %d calls) found no failing input.  Reported as proof_stale / level bounded, not as a violation.
+            not_binding.append((tname, fname, [x.name for x in failed[:6]]))
+            per_function[key].update(proof_stale=True, level="bounded", bounded_calls=hit["calls"], in_requires=hit["in_requires"],
+                                     why="statement skeleton differs from the one the sidecar was written for; open: %s" % ", ".join(x.name.split("/")[-1] for x in failed[:4]))
+            continue
         changed = [r for r in failed if baseline.get("%s|%s" % (tname, r.name)) != r.hash]
         if changed or not baseline:
             r = changed[0] if changed else failed[0]
@@ -317,6 +365,14 @@ def run(ctx, which):
         if clean and (tr["failures"] or tr["unhit"]):
             raise core.CheckerBroken("invariant trace guard failed for %s: %r / unhit %r" % (fname, tr["failures"][:1], tr["unhit"]))
 
+    for tname, fname, open_ in not_binding:
+        ctx.notes.append("proof_stale: %s:%s was restructured (statement skeleton differs from contracts/kernel_skeletons.json) and %d obligations "
+                         "of the old invariants are open (%s); no failing input in the bounded scope" % (tname, fname, len(open_), ", ".join(o.split("/")[-1] for o in open_[:3])))
+    if rebase:
+        sk_old = load_skeletons()
+        sk_old.update(skel_now)
+        with open(SKELETONS, "w") as f:
+            json.dump(sk_old, f, indent=1, sort_keys=True)
     if rebase:
         old = load_baseline()
         old = {k: v for k, v in old.items() if not any(k.startswith(t + "|") for t, _ in tables)}
@@ -349,7 +405,7 @@ def run(ctx, which):
         "slow_queries_over_10s": [r.name for r in real if r.seconds > 10],
         "samples": [{"obligation": r.name, "backend": r.backend, "verdict": r.verdict, "seconds": round(r.seconds, 3),
                      "site": r.ob.meta.get("site", "")} for r in real[:: max(1, len(real) // 12)]][:14],
-        "proof_stale": [list(s) for s in stale],
+        "proof_stale": [list(s) for s in stale] + [[t, f, "restructured body: the sidecar's invariants are not inductive for it (open: %s); bounded run only" % ", ".join(o.split("/")[-1] for o in op[:3])] for t, f, op in not_binding],
         "undecided": undecided,
         "evaluations": len(real),
         "distinct_nontrivial": len({r.hash for r in real}),
